@@ -117,6 +117,9 @@ func init() {
 		What:   "whole generated text on skeleton whole: an interface-level ':style arg' shapes every function of ITS interface and no function of another converter interface; a method-level :skip reaches its own function only (see C11WholeFile)",
 		Bounds: "skeleton whole", Assumes: []string{aT, aSlots}})
 
+	reg(&HarnessSpec{Prop: "C13", Name: "C13BlankImport", MapOrder: true,
+		What:    "real front half on skeleton blank (a blank import of a package that bears the NAME of a regularly imported one whose directory is called differently: _ \"verifsk/side/lib\" next to \"verifsk/lib/v2\", package lib) with every iteration order of the import table explored at each range site: the qualifier lib resolves to the named import, ':conv lib.Norm Name' is accepted and used under every order",
+		Bounds:  "skeleton blank, 2 slot choices, map orders of one range site per path", Assumes: []string{aT, aSlots}})
 	reg(&HarnessSpec{Prop: "C14", Name: "C14MainReports", Pkg: ".", Replay: "e2e-cli",
 		What:    "the REAL main() (harness injected into package main by overlay) with flags, positional argument and GOFILE symbolic and every pipeline stage summarised by an arbitrary result/error: whenever the process ends with os.Exit, the status is 1 and a message was written to standard error before - also for failures that never pass through the logger (os.Stat of the input, the import optimiser, the formatter, the write); a run without failure returns normally",
 		Bounds:  "paths <= 3 bytes (SMT strings); all flag valuations; every stage outcome",
@@ -192,6 +195,10 @@ func init() {
 		What:    "real parser.NewParser incl. its ParseFile hook with the loader, file system and go/parser symbolic: the loader delivers the input file, another file and (when it exists) the output file in arbitrary order with arbitrary contents; whenever a delivered file is the output path the hook withholds it silently and its bytes are never handed to the Go parser; every other file is parsed exactly once, unchanged, the input file with comments; the result of NewParser is decided by the loader's own result and the input file only - independent of whether the output path exists, of its bytes and of the Errors/TypeErrors/IllTyped fields of the loaded package (arbitrary, incl. every ErrorKind); an output path naming the input file is rejected and the input never parsed",
 		Bounds:  "3 files, contents <= 20 bytes (SMT strings), delivery order arbitrary rotation, 0..1 packages",
 		Assumes: []string{aEnv, "assumed, not decided (environment): go list / packages.Load deliver the same package, minus the withheld file, whatever same-package bytes the output path holds"}})
+	reg(&HarnessSpec{Prop: "C13", Name: "C12LoaderHook", Replay: "e2e-regen",
+		What:    "for C13's 'regardless of ... working directory': the package loader is asked for the input file by its ABSOLUTE name and runs the go command in the directory of the input file (packages.Config.Dir), so the listed package - sibling files, in-module imports - does not depend on where the tool was started (see C12LoaderHook)",
+		Bounds:  "as C12LoaderHook",
+		Assumes: []string{aEnv, "the import optimiser's own use of the working directory (x/tools/imports) is environment"}})
 	reg(&HarnessSpec{Prop: "C15", Name: "C12LoaderHook", Replay: "e2e-regen",
 		What:    "for C15's 'the setup file is never modified': an output path that names the input file itself (same file under any spelling: decided by os.SameFile, symbolic here) makes NewParser fail, so the run ends before any write (see C12LoaderHook for the rest of the contract)",
 		Bounds:  "as C12LoaderHook",
